@@ -1,12 +1,14 @@
 import MxModel.Proofs.ItemSpaceBind
 import MxModel.Proofs.ItemSpaceGet
 import MxModel.Proofs.ItemSpaceTotal
+import MxModel.Proofs.ItemSpaceValues
+import MxModel.Proofs.StructMechFrame
 import MxModel.Generated.Tables
 /-!
 # C07 – ItemSpaces are parametrised, isolated, identity-stable instances of their base
 
 Property theorems only (lemmas: `Proofs/ItemSpaceBind`, `ItemSpaceTable`, `ItemSpaceGet`; model:
-`Kernels/ItemSpace.lean`).  Three parts:
+`Kernels/ItemSpace.lean`).  Parts:
 
 1. `bind` (`node.py` `_bind_args`): every spelling that binds at all binds to the key of the
    fully positional spelling; what binds and to what is exactly Python's rule; everything else
@@ -22,8 +24,16 @@ Property theorems only (lemmas: `Proofs/ItemSpaceBind`, `ItemSpaceTable`, `ItemS
    left, wherever it hangs (`instance_fresh`, `deleted_base_leaves_no_instance`).  This was FALSE
    of the code before the repair 482219e (fixed finding C07-dynbase-edit-not-propagated; its
    witnesses stay in `corpus/C07/` and run first).
+   Over HISTORIES (3b): with a clock that ticks once per operation, every live dynamic space was built
+   after the last operation that touched its base - also when the edit reached the base through
+   inheritance (`instances_always_fresh`, `instances_always_fresh_inherited`,
+   `access_after_edit_builds_new`); and values (3c): one store keyed by the owner of the cells, an
+   assignment through one address is invisible through every other one, a new instance holds no value,
+   no value survives an edit of the definitions it was computed from (`assignment_isolated_in_world`,
+   `new_instance_holds_no_value`, `no_value_survives_an_edit`).
 4. the reference chain of a dynamic space in the order `space.py` lists it
    (`Generated.mxDynRefsOrder`, re-read from the source on every run).
+5. names inside an instance (namespace order).
 -/
 namespace MxModel.C07
 open MxModel.ItemSpace
@@ -254,6 +264,227 @@ theorem edit_only_removes (t : Table) (k : EditKind) (b : SId) :
   · exact fun e he => clearItems_sub t _ e (clearSubsRootItems_sub _ b e he)
   · intro e he; cases he
 
+/-! ## 3b. Freshness over histories, through inheritance
+
+`runH` (Kernels/ItemSpace.lean, 3c) runs the world and stamps, with a clock that ticks once per operation,
+every static space with the last operation that TOUCHED it (`touched`: the edited space; the parent of a
+created / deleted child space; every space of a deleted tree; every space for a model-level reference)
+and every implementation object with the operation that created it.  The stamps are ghost state
+(`stamped_run_is_the_run`).  An edit that reaches sub spaces through inheritance is the user-level
+operation `UOp.editInh`: the edit of the space followed by an edit of each sub space it reaches - what
+`SpaceManager`'s walks over `_get_subs` and `UserSpaceImpl.on_inherit` do (each sub space whose members
+change gets its own `clear_subs_rootitems()` / `on_namespace_change()`); which sub spaces those are is
+the structural mechanism's business (`inherited_edit_reaches_only_sub_spaces`). -/
+
+/-- the stamps are read by no operation: the stamped run is the run, the clock counts the operations -/
+theorem stamped_run_is_the_run (ops : List Op) :
+    (runH {} ops).w = run {} ops ∧ (runH {} ops).clock = ops.length := by
+  refine ⟨runH_world ops {}, ?_⟩
+  rw [runH_clock]; show 0 + ops.length = _; omega
+
+/-- the stamp of a touched space is the stamp of the operation … -/
+theorem stamp_of_edit (h : Hist) (op : Op) (s : SId) (hs : s ∈ touched h.w op) :
+    (h.step op).editedAt s = (h.step op).clock := by
+  show (if s ∈ touched h.w op then h.clock + 1 else h.editedAt s) = h.clock + 1
+  simp [hs]
+
+/-- … and so is the stamp of every dynamic space the operation created -/
+theorem stamp_of_build (h : Hist) (op : Op) (hinv : Inv h.w.tbl) (e : Entry)
+    (he : e ∈ (step h.w op).1.tbl.live) (hnew : e ∉ h.w.tbl.live) :
+    (h.step op).builtAt e.impl = (h.step op).clock := by
+  show (if h.w.tbl.nextImpl ≤ e.impl ∧ e.impl < (step h.w op).1.tbl.nextImpl then h.clock + 1 else h.builtAt e.impl)
+    = h.clock + 1
+  have h1 : h.w.tbl.nextImpl ≤ e.impl := by
+    rcases (grows_step h.w op).live e he with ho | hn
+    · exact absurd ho hnew
+    · exact hn
+  have h2 := ((evolves_step h.w op).inv hinv).implLt e he
+  simp [h1, h2]
+
+/-- **Every live instance was built after the last edit that affects its base** - after EVERY history of
+accesses (with any spellings, nested, through replicated children), deletions of instances
+(`clear_at`, `del`, `clear_items`, `clear_all`), edits of every kind of every static space, creation and
+deletion of spaces: for every live dynamic space, the operation that created its implementation is LATER
+than the last operation that touched the static space it is a copy of. -/
+theorem instances_always_fresh (ops : List Op) :
+    ∀ e ∈ (runH {} ops).w.tbl.live, (runH {} ops).editedAt e.base < (runH {} ops).builtAt e.impl :=
+  (fresh_runH ops {} fresh_empty).fresh
+
+/-- the same for histories with edits that reach sub spaces through inheritance: an inherited edit stamps
+the edited space and every sub space it reaches -/
+theorem instances_always_fresh_inherited (us : List UOp) :
+    ∀ e ∈ (runU {} us).w.tbl.live, (runU {} us).editedAt e.base < (runU {} us).builtAt e.impl :=
+  instances_always_fresh _
+
+/-- **An inherited edit leaves no instance of the edited space nor of any sub space it reaches**, wherever
+the instance hangs -/
+theorem inherited_edit_leaves_no_instance (w : World) (k : EditKind) (path : ItemSpace.Path)
+    (reach : List (EditKind × ItemSpace.Path)) :
+    ∀ e ∈ (run w (UOp.expand (.editInh k path reach))).tbl.live,
+      ∀ q ∈ path :: reach.map (·.2), ∀ d, findDef w.defs q = some d → e.base ≠ d.id := by
+  intro e he q hq d hd
+  have := run_edits_no_copy ((k, path) :: reach) w e (by simpa [UOp.expand] using he)
+  rcases List.mem_cons.mp hq with rfl | hq
+  · exact this (k, q) (by simp) d hd
+  · obtain ⟨r, hr, rfl⟩ := List.mem_map.mp hq
+    exact this r (List.mem_cons_of_mem _ hr) d hd
+
+/-- **Which sub spaces an edit reaches** (the structural mechanism model, `Struct/Mech.lean`, C03): when
+`new_cells`, a formula change, or the deletion of a cells or reference of the space `p` is accepted, a
+space whose member table differs afterwards (a member appeared, disappeared, or carries another
+definition) is `p` itself or a sub space of `p` (`p` is in its linearisation).  So the spaces an inherited
+edit has to reach are found along the inheritance relation, nowhere else; the member tables of all other
+spaces - what their instances were built from - are what they were. -/
+theorem inherited_edit_reaches_only_sub_spaces (kw : List String) (st st' : SM.St) (p : SM.Path) (name : String)
+    (v : Nat) (a : SM.Attr)
+    (hop : st.newCells kw p name v = some st' ∨ st.setFormula p name v = some st' ∨ st.delMember a p name = some st')
+    (q : SM.Path) (b : SM.Attr) (n : String) (hne : st'.mem b q n ≠ st.mem b q n) :
+    q = p ∨ q ∈ st.subs p := by
+  have hf : SM.Frame st st' p := by
+    rcases hop with h | h | h
+    · exact SM.newCells_frame kw st st' p name v h
+    · exact SM.setFormula_frame st st' p name v h
+    · exact SM.delMember_frame st st' a p name h
+  have := hf.changed_mem b q n hne
+  simpa [SM.St.touched] using this
+
+/-- **The next access after an edit builds a new instance.**  If an operation touches the static space `b`,
+then - whatever happens afterwards - every dynamic space built from `b` that is ever live again has an
+implementation object that did not exist when the edit happened (its number had not been handed out).
+The INTERFACE may be the old one: modelx re-attaches the cached interface of the address to the new
+implementation (`old_handle`), that is the documented behaviour of handles. -/
+theorem access_after_edit_builds_new (ops1 : List Op) (op : Op) (ops2 : List Op) (b : SId)
+    (hb : b ∈ touched (run {} ops1) op) :
+    ∀ e ∈ (run {} (ops1 ++ op :: ops2)).tbl.live, e.base = b → (run {} ops1).tbl.nextImpl ≤ e.impl := by
+  intro e he heb
+  have hr : run {} (ops1 ++ op :: ops2) = run (step (run {} ops1) op).1 ops2 := by
+    simp [run, List.foldl_append]
+  rw [hr] at he
+  rcases (grows_run ops2 _).live e he with h | h
+  · exact absurd (heb ▸ hb) (step_touched_gone (run {} ops1) op e h)
+  · exact Nat.le_trans (grows_step (run {} ops1) op).next h
+
+/-- … while accesses with no operation in between return the same instance, whatever the spellings
+(`equal_keys_same_instance`), and any history keeps the instances it does not delete: an operation that
+touches no static space and deletes nothing (an access) leaves every live instance live -/
+theorem access_keeps_instances (w : World) (root : ItemSpace.Path) (chain : List ChainSeg) :
+    ∀ e ∈ w.tbl.live, e ∈ (step w (.item root chain)).1.tbl.live := by
+  intro e he
+  simp only [step]
+  split
+  · exact he
+  · rename_i a _
+    dsimp only
+    have : ∀ (chain : List ChainSeg) (t : Table) (a : Addr), ∀ e ∈ t.live, e ∈ (walk w.defs t a chain).1.live := by
+      intro chain
+      induction chain with
+      | nil => intro t a e he; simpa [walk] using he
+      | cons sg rest ih =>
+        intro t a e he
+        cases sg with
+        | call args kw =>
+          unfold walk
+          split
+          · exact he
+          · split
+            · exact he
+            · obtain ⟨l, hl⟩ := getItem_live w.defs t a args kw
+              have hm : e ∈ (getItem w.defs t a args kw).1.live := by rw [hl]; exact List.mem_append_left _ he
+              generalize getItem w.defs t a args kw = r at hm
+              obtain ⟨t', res⟩ := r
+              cases res with
+              | ok e' => exact ih t' e'.addr e hm
+              | typeError => exact hm
+              | keyError => exact hm
+              | formulaError => exact hm
+              | noNode => exact hm
+        | child n =>
+          unfold walk
+          split
+          · split
+            · exact ih t _ e he
+            · exact he
+          · split
+            · exact ih t _ e he
+            · exact he
+    exact this chain w.tbl a e he
+
+/-! ## 3c. Values: isolation and freshness as theorems about the world
+
+`VWorld` (Kernels/ItemSpace.lean, 4b): the world plus ONE store of values, each owned by the cells object
+it was assigned to / computed in - a cells of a static space, or of the implementation of a dynamic space.
+That a value hangs on the cells object (`CellsImpl.data`) and that the cells objects of a dynamic space
+are created with it is the modelling assumption (read off the code, sampled by the isolation oracle);
+that distinct addresses have distinct objects, and that the objects of re-created instances are new, are
+theorems about the table. -/
+
+/-- **An assignment (or a cached result) in one instance is visible nowhere else**: after every history, a
+value stored through the access chain that leads to the address `p` leaves what is read at every other
+address - another instance of the same space, an instance of another space, a replicated child space, the
+static space itself - exactly what the store held before. -/
+theorem assignment_isolated_in_world (ops : List VOp) (root : ItemSpace.Path) (chain : List ChainSeg)
+    (c : String) (k : Key) (v : Val) (p : Addr)
+    (hp : (VWorld.run {} ops).target root chain = some p) (a' : Addr) (hne : a' ≠ p) (c' : String) (k' : Key) :
+    ((VWorld.run {} ops).step (.assign root chain c k v)).valueAt a' c' k' =
+      match ownerAt ((VWorld.run {} ops).step (.assign root chain c k v)).w a' with
+      | some o' => (VWorld.run {} ops).store.get o' c' k'
+      | none => none := by
+  have hv := vinv_run ops {} vinv_empty
+  generalize VWorld.run {} ops = vw at hp hv
+  have hinv' := (vinv_step vw (.assign root chain c k v) hv).inv
+  unfold VWorld.valueAt
+  cases ho' : ownerAt (vw.step (.assign root chain c k v)).w a' with
+  | none => rfl
+  | some o' =>
+    dsimp only
+    rcases vstep_store vw (.assign root chain c k v) with hs | ⟨root', chain', c0, k0, v0, p0, o, heq, hp0, ho, hs⟩
+    · rw [hs]
+    · cases heq
+      rw [hp] at hp0; cases hp0
+      rw [hs, VStore.get_cons]
+      have : o ≠ o' := fun e => hne (ownerAt_inj hinv' ho' (e ▸ ho))
+      simp [this]
+
+/-- in particular the static space does not see what is assigned in its instances -/
+theorem static_space_unaffected_by_instance_values (ops : List VOp) (root : ItemSpace.Path) (chain : List ChainSeg)
+    (c : String) (k : Key) (v : Val) (p : Addr)
+    (hp : (VWorld.run {} ops).target root chain = some p) (hdyn : p.dkey ≠ []) (s : SId) (c' : String) (k' : Key) :
+    ((VWorld.run {} ops).step (.assign root chain c k v)).valueAt ⟨s, []⟩ c' k' =
+      match ownerAt ((VWorld.run {} ops).step (.assign root chain c k v)).w ⟨s, []⟩ with
+      | some o' => (VWorld.run {} ops).store.get o' c' k'
+      | none => none :=
+  assignment_isolated_in_world ops root chain c k v p hp ⟨s, []⟩ (fun e => hdyn (by rw [← e])) c' k'
+
+/-- **A newly built instance holds no value**: whatever the history, a dynamic space that an operation
+creates (it is live afterwards and was not before) owns none of the values the store holds - it does not
+inherit the values of an earlier instance of the same address, of its base, or of anything else. -/
+theorem new_instance_holds_no_value (ops : List VOp) (op : VOp) (e : Entry)
+    (he : e ∈ ((VWorld.run {} ops).step op).w.tbl.live) (hnew : e ∉ (VWorld.run {} ops).w.tbl.live)
+    (c : String) (k : Key) : (VWorld.run {} ops).store.get (.dyn e.impl) c k = none := by
+  have hv := vinv_run ops {} vinv_empty
+  rcases (grows_vstep (VWorld.run {} ops) op).live e he with h | h
+  · exact absurd h hnew
+  · exact store_none_of_new hv e.impl h c k
+
+/-- **No value survives an edit of the definitions it was computed from**: when an operation touches the
+static space `b` - directly, or as a sub space reached by an inherited edit (each reached sub space is
+touched by its own `Op.edit`) - then none of the values that exist at that moment is ever served by a
+dynamic space built from `b`, at any later time: every such dynamic space is a new object
+(`access_after_edit_builds_new`) and starts empty. -/
+theorem no_value_survives_an_edit (ops1 : List VOp) (o : Op) (ops2 : List VOp) (b : SId)
+    (hb : b ∈ touched (VWorld.run {} ops1).w o) :
+    ∀ e ∈ (VWorld.run {} (ops1 ++ .op o :: ops2)).w.tbl.live, e.base = b →
+      ∀ c k, (VWorld.run {} ops1).store.get (.dyn e.impl) c k = none := by
+  intro e he heb c k
+  have hv := vinv_run ops1 {} vinv_empty
+  have hr : VWorld.run {} (ops1 ++ .op o :: ops2) = ((VWorld.run {} ops1).step (.op o)).run ops2 := by
+    simp [VWorld.run, List.foldl_append]
+  rw [hr] at he
+  apply store_none_of_new hv
+  rcases (grows_vrun ops2 _).live e he with h | h
+  · exact absurd (heb ▸ hb) (step_touched_gone (VWorld.run {} ops1).w o e h)
+  · exact Nat.le_trans (grows_step (VWorld.run {} ops1).w o).next h
+
 /-- a small world for the witnesses: static `S` (id 0, parameter `i`) with a child space `S.X` (id 1) -/
 def demoDefs : Defs := [⟨0, ["S"], some [⟨"i", none⟩], none⟩, ⟨1, ["S", "X"], none, none⟩]
 
@@ -374,6 +605,59 @@ example : ((step { demoWorld with tbl := applyEdit demoWorld.tbl .setFormula 1 }
 example : (applyEdit demoWorld.tbl .newRef 0).live = [] := by decide
 -- an edit of a space nothing was built from removes nothing
 example : (applyEdit demoWorld.tbl .delCells 7).live.length = 4 := by decide
+
+-- histories with stamps: `S(i)` with child `S.X`; `S[1]`, `S[2]`; a cells of `S.X` is deleted (op 5, touches
+-- `S.X` only); `S[1]` again (op 6): new implementations 4, 5 built at 6 > the stamps 2 (`S`: its child was
+-- created at op 2) and 5 (`S.X`); the interfaces 0, 1 are the old ones
+def histOps : List Op := [
+  .newSpace ["S"] (some [⟨"i", none⟩]) none, .newSpace ["S", "X"] none none,
+  .item ["S"] [.call [1] []], .item ["S"] [.call [2] []],
+  .edit .delCells ["S", "X"],
+  .item ["S"] [.call [1] []]]
+
+example : (runH {} histOps).w.tbl.live.map (fun e => (e.addr.dkey, e.impl, e.handle, e.base,
+      (runH {} histOps).builtAt e.impl, (runH {} histOps).editedAt e.base)) =
+    [([.key [1]], 4, 0, 0, 6, 2), ([.key [1], .name "X"], 5, 1, 1, 6, 5)] := by decide
+example : touched (run {} (histOps.take 4)) (.edit .delCells ["S", "X"]) = [1] := by decide
+example : (run {} (histOps.take 4)).tbl.nextImpl = 4 ∧ (run {} (histOps.take 5)).tbl.live = [] := by decide
+
+-- inheritance: `S(i)` and `T(j)`; `S` derives the cells of `B`, `T` does not.  The formula of `B`'s cells
+-- changes: the edit reaches `S` (stamp 7), not `T`: `T[5]` (built at 5) stays, `S[1]` is rebuilt (op 8 > 7)
+def inhOps : List UOp := [
+  .op (.newSpace ["B"] none none), .op (.newSpace ["S"] (some [⟨"i", none⟩]) none),
+  .op (.newSpace ["T"] (some [⟨"j", none⟩]) none),
+  .op (.item ["S"] [.call [1] []]), .op (.item ["T"] [.call [5] []]),
+  .editInh .setFormula ["B"] [(.setFormula, ["S"])],
+  .op (.item ["S"] [.call [1] []])]
+
+example : (runU {} inhOps).w.tbl.live.map (fun e => (e.addr.root, e.addr.dkey, e.impl, e.handle,
+      (runU {} inhOps).builtAt e.impl, (runU {} inhOps).editedAt e.base)) =
+    [(2, [.key [5]], 1, 1, 5, 0), (1, [.key [1]], 2, 0, 8, 7)] := by decide
+
+-- the structural mechanism: `S` derives `B`, `T` does not; the formula of `B.f` changes: `S`'s table
+-- changes (and `S` is a sub space of `B`), `T`'s does not
+example :
+    let st := SM.St.run [] {} [.newSpace [] "B" [] [], .newCells ["B"] "f" "f" 1, .newSpace [] "S" [["B"]] [],
+      .newSpace [] "T" [] [], .newCells ["T"] "f" "f" 1]
+    ∃ st', st.setFormula ["B"] "f" 2 = some st' ∧ st'.mem .cells ["S"] "f" ≠ st.mem .cells ["S"] "f" ∧
+      st'.mem .cells ["T"] "f" = st.mem .cells ["T"] "f" ∧ ["S"] ∈ st.subs ["B"] ∧ ["T"] ∉ st.subs ["B"] := by
+  refine ⟨_, rfl, ?_, ?_, ?_, ?_⟩ <;> decide
+
+-- values: `S[1].f[0] = 10`, `S[2].f[0] = 20`, `S.f[0] = 30` are three values; after a formula change of `S`
+-- the re-created `S[1]` holds none
+def valOps : List VOp := [
+  .op (.newSpace ["S"] (some [⟨"i", none⟩]) none),
+  .assign ["S"] [.call [1] []] "f" [0] 10,
+  .assign ["S"] [.call [2] []] "f" [0] 20,
+  .assign ["S"] [] "f" [0] 30]
+
+example : (VWorld.run {} valOps).valueAt ⟨0, [.key [1]]⟩ "f" [0] = some 10 ∧
+    (VWorld.run {} valOps).valueAt ⟨0, [.key [2]]⟩ "f" [0] = some 20 ∧
+    (VWorld.run {} valOps).valueAt ⟨0, []⟩ "f" [0] = some 30 := by decide
+example : (VWorld.run {} valOps).target ["S"] [.call [1] []] = some ⟨0, [.key [1]]⟩ := by decide
+example : (VWorld.run {} (valOps ++ [.op (.edit .setFormula ["S"]), .op (.item ["S"] [.call [1] []])])).valueAt
+    ⟨0, [.key [1]]⟩ "f" [0] = none := by decide
+example : (0 : SId) ∈ touched (VWorld.run {} valOps).w (.edit .setFormula ["S"]) := by decide
 
 -- the chain: a parameter `i` shadows the base's `i` and the model's; the inner `i` wins
 example : chainFind (chain [[("i", 2)], [("i", 1)]] [("r", 7)] [] [("i", 50), ("r", 3)] [("i", 99), ("u", 11)]) "i"
